@@ -203,14 +203,14 @@ Print Assumptions c09_flood_outcome_pinned.
 (* ---- classifier ---------------------------------------------------------------------------------------- *)
 
 Theorem c09_classifier_total : forall c,
-  (classify c = Drop <-> c = ETimeout \/ c = EClosed \/ c = EEOF \/ c = EUnknown) /\
+  (classify c = Drop <-> c = ETimeout \/ c = EClosed \/ c = EEOF \/ c = EUnknown \/ c = ETooBig) /\
   (classify c = Continue <-> c = ECanceled \/ c = EOther) /\
   (classify c = Drop \/ classify c = Continue).
 Proof. exact classifier_total_all. Qed.
 Print Assumptions c09_classifier_total.
 
 Theorem c09_raw_recoverable_iff : forall e,
-  handle_error e <> EOther /\
+  (handle_error e <> EOther /\ handle_error e <> ETooBig) /\
   (classify (handle_error e) = Continue <->
    has_use_of_closed e = false /\ has_broken_pipe e = false /\ has_canceled e = true).
 Proof. exact raw_recoverable_iff. Qed.
